@@ -60,6 +60,22 @@ def external_stores(prog, attr, owner_quals):
     return out
 
 
+def flush_before_write(prog, pa) -> bool:
+    """On *every* path to the handshake write the receive queue has been flushed (must-pass-through): otherwise a stale
+    reply of an earlier, abandoned handshake is taken for the reply to this one and a wrong session key is derived."""
+    from ..absint import EventAnalysis, run_events
+
+    def on_stmt(node, st):
+        if isinstance(node, ast.Expr) and isinstance(node.value, ast.Call) and isinstance(node.value.func, ast.Attribute) and node.value.func.attr == "_flush":
+            return ["flushed"]
+        return []
+    ea = EventAnalysis(must=True, on_stmt=on_stmt)
+    run_events(prog, pa, ea)
+    wst = [n for n in ea.at if isinstance(n, ast.stmt) and not isinstance(n, (ast.Try, ast.If, ast.While, ast.With, ast.For)) and
+           any(isinstance(c, ast.Call) and isinstance(c.func, ast.Attribute) and c.func.attr == "write" for c in ast.walk(n))]
+    return bool(wst) and all("flushed" in ea.at[n] for n in wst)
+
+
 def run(ctx):
     prog = ctx.prog
     ctx.explanation = ("path-condition dominance of the SHA-256 proof in _get_local_key; who-writes scans and value-flow of the stored key; "
@@ -223,10 +239,9 @@ def run(ctx):
                fail="the handshake is sent with the default (encrypted data) packet type or another type")
         ctx.ob("C06.c", pa.qual, t0 is not None and strip(t0) == ("param", pa.params[1]), "the handshake payload is the configured token, unmodified", func=pa.qual, file=file, node=w,
                detail={"payload": show(t0)[:80] if t0 else None}, fail="the handshake request does not carry exactly the configured token")
-    flush = [n for n in ast.walk(pa.node) if isinstance(n, ast.Call) and isinstance(n.func, ast.Attribute) and n.func.attr == "_flush"]
-    order = bool(flush) and bool(writes) and flush[0].lineno < writes[0].lineno
+    order = flush_before_write(prog, pa)
     ctx.ob("C06.c", pa.qual, order, "stale packets are flushed before the handshake request is written", func=pa.qual, file=file, construct="_flush() before write()",
-           fail="the receive queue is not flushed before the handshake: a stale packet is taken for the reply")
+           fail="the receive queue is not flushed on every path before the handshake request: a stale reply is taken for this handshake's reply (wrong session key)")
     lw = [n for n in ast.walk(la.node) if isinstance(n, ast.Call) and isinstance(n.func, ast.Attribute) and n.func.attr == "write"]
     ctx.ob("C06.c", la.qual, not lw, "LAN.authenticate performs no transport write of its own", func=la.qual, file=file, node=lw[0] if lw else None,
            fail="LAN.authenticate writes to the transport itself (something other than a handshake request is sent)")
